@@ -210,9 +210,13 @@ for p in props:
 m = {
  "version": 1,
  "setup_cmd": "bin/setup.sh",
- "hooks": {"guard": "narsese_rs_verif", "enable": "none: static analysis reads /repo's source as is; no hooks are compiled in",
+ "hooks": {"guard": "arcj137442_narsese_rs_verif",
+           "enable": "bin/extract.sh type-checks /repo with RUSTFLAGS `--cfg arcj137442_narsese_rs_verif` (cargo +nightly check, nothing is executed): the two "
+                     "guarded functions __verif_enum_nse_expansion / __verif_lexical_nse_expansion (one expansion of enum_nse! and of lexical_nse! with a string "
+                     "literal) become part of the fact base, so that W-MACRO (C09) can read what the macro_rules definitions expand to; the cfg name is "
+                     "declared under [lints.rust] unexpected_cfgs in Cargo.toml so that normal builds do not warn",
            "baseline_off_cmd": "cd /repo && cargo test --workspace --no-fail-fast --offline",
-           "source_commits": [], "add_only": True},
+           "source_commits": ["c72fd50"], "add_only": True},
  "engines": [
   {"name": "mirfacts", "path": "engines/mirfacts", "serves_properties": [c["property_id"] for c in checks],
    "kind_free_text": "rustc_private driver (nightly) run as RUSTC_WORKSPACE_WRAPPER under cargo check: dumps name-resolved, type-checked HIR expression trees, opt-level-0 MIR with resolved callees/field names/panic edges, ADT definitions, impls, statics/consts as JSON; nothing of /repo is executed"},
